@@ -2,10 +2,11 @@
    Model: VModel.RingHash (normalizeWeights / newRing in binary64 primitive floats,
    ring.pick, picker.Pick for both hash sources; xxhash values supplied as tables).
    Theorems only; each is closed by [exact] of a lemma of proof/RingHash_proofs.v. *)
-From Coq Require Import List ZArith Bool Floats Permutation.
+From Coq Require Import List ZArith Bool Floats Permutation Reals.
+From Flocq Require Import Core.Core.
 From VLib Require Import Codec Machine.
 From VModel Require Import RingHash.
-From VProof Require Import RingHash_proofs RingHashFlt_proofs.
+From VProof Require Import Flt_proofs RingHash_proofs RingHashFlt_proofs RingHashIdeal_proofs.
 Import ListNotations.
 Open Scope Z_scope.
 
@@ -37,15 +38,73 @@ Theorem C37_entries_per_endpoint : forall k tbl cur tgt c es,
 Proof. exact inner_count. Qed.
 Print Assumptions C37_entries_per_endpoint.
 
-(* "has between min_ring_size and max_ring_size entries (when the endpoint count
-   permits)" is REFUTED for the upper bound (finding, clause 5): 5 endpoints of weight 1,
-   min_ring_size = max_ring_size = 6 give a ring of 7 entries (the float64 accumulation
-   of the targets ends above 6). *)
+(* The size sentence on the real-arithmetic idealisation of newRing (exact reals instead
+   of float64: normalized weight w/S with S the sum, scale =
+   min(ceil(minWeight*minSize)/minWeight, maxSize), exact cumulative targets, integer
+   counter): for all weight vectors ws (all >= 1, not empty; wmin the least weight - only
+   its positivity matters) and 1 <= minR <= maxR,
+     minR <= size <= maxR,  size = ceil(scale),  and for every endpoint
+     0 <= count and |count - scale * w/S| < 1. *)
+Theorem C37_size_ideal : forall ws wmin minR maxR,
+  Forall (fun w => 1 <= w) ws -> ws <> [] -> 1 <= wmin -> 1 <= minR <= maxR ->
+  (minR <= sizeI ws wmin minR maxR <= maxR) /\
+  sizeI ws wmin minR maxR = Zceil (scaleI ws wmin minR maxR) /\
+  Forall2 (fun w c => 0 <= c /\ (Rabs (IZR c - scaleI ws wmin minR maxR * nwI ws w) < 1)%R)
+          ws (countsI ws wmin minR maxR).
+Proof. exact ideal_size_and_proportion. Qed.
+Print Assumptions C37_size_ideal.
+
+(* the counter loop "for cur < tgt { cur++ }" exits at max(cur, ceil(tgt)) - the closed
+   form used by the idealisation (countsR) and proved of the float64 loop below *)
+Theorem C37_loop_exit : forall (cur c' : Z) (t : R), cur <= c' -> ~ (IZR c' < t)%R ->
+  (forall j, cur <= j < c' -> (IZR j < t)%R) -> c' = Z.max cur (Zceil t).
+Proof. exact loop_exit. Qed.
+Print Assumptions C37_loop_exit.
+
+(* float64 model, inner loop in closed form: from an exactly represented integer counter
+   c <= 2^52 and a finite target of real value t <= 2^52, the loop leaves the counter
+   max(c, ceil t) (still exact) and emits max(c, ceil t) - c entries. *)
+Theorem C37_entries_float_closed_form : forall k tgt t, FR tgt t -> (t <= IZR (2^52))%R ->
+  forall tbl cur c cur' es, FR cur (IZR c) -> 0 <= c <= 2^52 ->
+  inner k tbl cur tgt = Some (cur', es) ->
+  FR cur' (IZR (Z.max c (Zceil t))) /\ zlen es = Z.max c (Zceil t) - c.
+Proof. exact inner_closed. Qed.
+Print Assumptions C37_entries_float_closed_form.
+
+(* float64 model, the deviation from the idealisation characterised exactly: within the
+   model's domain ([tgts_ok]: cumulative float targets finite, non-decreasing, <= 2^52)
+   the ring has exactly ceil(T) entries, T the real value of the accumulated float64
+   target; so it differs from the ideal size ceil(scale) exactly as far as T's rounding
+   error moves it across an integer, and
+     size <= max_ring_size  <->  T <= max_ring_size  (overshoot = false).
+   Clause 5 (the finding) is raised exactly in the class overshoot = true. *)
+Theorem C37_size_float_exact : forall mn mx eps ring, 0 <= mx < 2^52 ->
+  tgts_ok mn mx eps = true -> new_ring mn mx eps = Some ring ->
+  exists tn, FR (spec_final_target mn mx eps) tn /\ zlen ring = Zceil tn /\
+             (overshoot mn mx eps = false <-> zlen ring <= mx).
+Proof. exact size_float. Qed.
+Print Assumptions C37_size_float_exact.
+
+(* ... and that class is not empty: "has between min_ring_size and max_ring_size entries"
+   is REFUTED for the upper bound (finding, clause 5): 5 endpoints of weight 1,
+   min_ring_size = max_ring_size = 6 give a ring of 7 entries. *)
 Theorem C37_size_max_refuted : exists eps ring,
   weights_ok eps = true /\ distinct (map key eps) = true /\ nw_good eps = true /\
   zlen eps <= 6 /\ new_ring 6 6 eps = Some ring /\ zlen ring = 7 /\ overshoot 6 6 eps = true.
 Proof. exact size_max_refuted. Qed.
 Print Assumptions C37_size_max_refuted.
+
+(* where the request hash comes from (head of picker.Pick): no header configured -> the
+   xDS hash of the context, absent = error; header configured -> xxhash of the
+   comma-joined header values (hj; request-hash walk), or without metadata / values the
+   random number r (random-hash walk) *)
+Theorem C37_hash_source : forall hdr xdsp xh mdp n hj r,
+  (hdr = 0 -> xdsp = 0 -> hash_source hdr xdsp xh mdp n hj r = SrcErr) /\
+  (hdr = 0 -> xdsp <> 0 -> hash_source hdr xdsp xh mdp n hj r = SrcReq (u64 xh)) /\
+  (hdr <> 0 -> mdp = 0 \/ n = 0%nat -> hash_source hdr xdsp xh mdp n hj r = SrcRnd (u64 r)) /\
+  (hdr <> 0 -> mdp <> 0 -> n <> 0%nat -> hash_source hdr xdsp xh mdp n hj r = SrcReq (u64 hj)).
+Proof. exact hash_source_cases. Qed.
+Print Assumptions C37_hash_source.
 
 (* "returns the first ring entry clockwise whose hash is at least the request hash":
    ring.pick (binary search) on a ring sorted by hash returns index i with
@@ -115,8 +174,9 @@ Theorem C37_walk_random_is_spec : forall ring sts start, 0 <= start < zlen ring 
 Proof. exact pick_rnd_is_spec. Qed.
 Print Assumptions C37_walk_random_is_spec.
 
-(* The pick / Pick clauses (0, 8-11) of the predicate evaluated on implementation traces
-   hold on every trace of the model, for every configuration and op list of any length. *)
+(* The clauses 0 (decoding), 4 (size <= max outside the overshoot class) and 8-12 (pick,
+   Pick with every hash source) of the predicate evaluated on implementation traces hold
+   on every trace of the model, for every configuration and op list of any length. *)
 Theorem C37_holds_on_every_model_trace : forall cfg ops obs,
   run cfg ops = Some obs -> holds_b cfg ops obs = true.
 Proof. exact model_trace_holds. Qed.
@@ -138,5 +198,5 @@ Example C37_witness :
     pick_rnd r [(1, 2); (2, 0); (3, 1)] 75 = (0, 1, [])
   | None => False
   end /\
-  (exists obs, run [1; 2; 1; 7; 1; 2; 5; 6] [[1; 0]; [2; 6]; [3; 0; 3]; [4; 0; 0]] = Some obs).
+  (exists obs, run [1; 2; 1; 7; 1; 2; 5; 6] [[1; 0]; [2; 6]; [3; 0; 3]; [4; 0; 0]; [5; 1; 0; 0; 1; 2; 7; 8; 6; 0; 0]] = Some obs).
 Proof. vm_compute. repeat split; eexists; reflexivity. Qed.
